@@ -35,7 +35,7 @@ type Env struct {
 	depth     int
 	absIdx    map[string]absInfo
 	tparams   map[string]types.Type // type arguments when a generic contract is applied at an instantiated call site
-	pol       int // +1: the formula being translated is assumed (positive position); 0: unknown / goal
+	pol       int                   // +1: the formula being translated is assumed (positive position); 0: unknown / goal
 }
 
 // absInfo: a quantified index variable rebound to an absolute position in a backing array, so that the
@@ -1115,6 +1115,11 @@ func (fe *FnEnc) trCall(x ECall, env *Env) SVal {
 			cn, cs = fe.resolveModifies(name)
 		}
 		return SVal{T: tEq(fe.getComp(env.cur, cn, cs), fe.getComp(env.old, cn, cs)), Typ: types.Typ[types.Bool]}
+	case "flag": // flag("name"): the variable a command line flag of that name was registered for (0: none)
+		k := fe.tr(x.Args[0], env)
+		return SVal{T: tSel(fe.getComp(env.state(), "FLAGS", arrSort(sStr, sInt)), k.T), Typ: types.Typ[types.UnsafePointer]}
+	case "truncated": // a body was read through a LimitReader that cut it short
+		return SVal{T: fe.getComp(env.state(), "truncated", sBool), Typ: types.Typ[types.Bool]}
 	case "blobReady":
 		return SVal{T: fe.getComp(env.state(), "blobReady", sBool), Typ: types.Typ[types.Bool]}
 	case "mutations": // ghost counter of successful mutating store calls
@@ -1145,6 +1150,32 @@ func (fe *FnEnc) trCall(x ECall, env *Env) SVal {
 		e2 := *env
 		e2.inOld = false
 		return fe.mat(fe.tr(x.Args[0], &e2), &e2)
+	case "addr": // address of a field whose address is taken somewhere in the program: addr(x.f)
+		sel, ok := x.Args[0].(ESel)
+		if !ok {
+			fe.specFail("addr() needs a field selector")
+		}
+		xv := fe.tr(sel.X, env)
+		var structT types.Type
+		var base Term
+		if xv.At != nil {
+			structT, base = xv.Typ, *xv.At
+		} else if el, isPtr := derefType(xv.Typ); isPtr && structOf(el) != nil {
+			structT, base = el, xv.T
+		} else {
+			fe.specFail("addr(%s): not a field of an addressable struct", exprString(x.Args[0]))
+		}
+		s := structOf(structT)
+		for i := 0; i < s.NumFields(); i++ {
+			if s.Field(i).Name() == sel.F {
+				if structOf(s.Field(i).Type()) == nil && !fe.c.escFields[escKey(structT, i)] {
+					fe.specFail("addr(%s): the address of this field is never taken", exprString(x.Args[0]))
+				}
+				return SVal{T: fe.subAddr(structT, i, base), Typ: types.NewPointer(s.Field(i).Type())}
+			}
+		}
+		fe.specFail("addr: no field %s", sel.F)
+		return SVal{}
 	case "fresh":
 		v := fe.mat(fe.tr(x.Args[0], env), env)
 		oa := fe.getComp(env.old, "alloc", sInt)
